@@ -209,6 +209,10 @@ def c08_cases(rng, tier):
         d = b"INVITE sip:a@h SIP/2.0\r\nVia: SIP/2.0/TCP h\r\nContent-Length: " + cl + b"\r\n\r\nshort"
         last.append(stream_case("rxstream-c08", "ballS%d" % j, 4096, [d], {"kind": "absurd-length"}))
         last.append(udp_case("rxudp-c08", "ballU%d" % j, 65536, [(b"recv", d), (b"parse",)], {"kind": "absurd-length"}))
+        # the same claim with MORE than 64 KiB of body actually delivered: the body buffer has to grow, and may grow only
+        # in proportion to what has arrived
+        big = b"INVITE sip:a@h SIP/2.0\r\nVia: SIP/2.0/TCP h\r\nContent-Length: " + cl + b"\r\n\r\n" + rand_body(rng, 70000 + 10000 * (j % 3))
+        last.append(stream_case("rxstream-c08", "ballL%d" % j, 4096, segment(big, random_cuts(rng, len(big), 3)), {"kind": "absurd-length-long-body"}))
     return cases, last
 
 
